@@ -191,9 +191,12 @@ class pcorrelogram(FourierSpectrum):
                              #   scale_by_freq=self.scale_by_freq,
                              )
         if self.datatype == 'real':
-            #FIXME. do we want to use same syntax/code as in burg/pminvar/pcovar
-            # to handle odd data ?
-            self.psd = tools.twosided_2_onesided(psd)
+            # same one-sided slicing as burg/pminvar/pcovar (handles odd NFFT)
+            if self.NFFT % 2 == 0:
+                newpsd = psd[0:int(self.NFFT/2+1)] * 2
+            else:
+                newpsd = psd[0:int((self.NFFT+1)/2)] * 2
+            self.psd = newpsd
         else:
             self.psd = psd
         self.scale()
